@@ -420,6 +420,9 @@ pub struct World<'a> {
     pub facts: Facts,
     pub iterations: u64,
     pub error: Option<EvalErr>,
+    /// an expression of a *rule* failed for some binding during the fixpoint (every binding of
+    /// a rule is evaluated: the evaluation as a whole fails, whatever the order)
+    pub rule_error: Option<EvalErr>,
     /// R5: number of (fact, origin) pairs after each productive iteration
     pub fact_counts: Vec<usize>,
 }
@@ -448,6 +451,7 @@ impl<'a> World<'a> {
             facts,
             iterations: 0,
             error: None,
+            rule_error: None,
             fact_counts: vec![],
         }
     }
@@ -497,6 +501,9 @@ impl<'a> World<'a> {
                 if let Some(e) = s.errors.first() {
                     if self.error.is_none() {
                         self.error = Some(e.clone());
+                    }
+                    if self.rule_error.is_none() {
+                        self.rule_error = Some(e.clone());
                     }
                 }
                 for (o, env) in s.satisfied {
